@@ -228,6 +228,13 @@ def cout(x):
 
 
 # ---------------------------------------------------------------------------------------------
+def _padded(k, thunk):
+    """call thunk from k extra Python frames (varies where a RecursionError strikes)"""
+    if k <= 0:
+        return thunk()
+    return _padded(k - 1, thunk)
+
+
 class Impl:
     """Runs a case on the real pyroll.core.hooks."""
 
@@ -409,7 +416,7 @@ class Impl:
                         objs[o[1]] = self.classes[o[2]]()
                         outs.append(('done',))
                     elif k == 'read':
-                        outs.append(('val', V.model(getattr(objs[o[1]], f"h{o[2]}"))))
+                        outs.append(('val', V.model(_padded(getattr(self, 'stack_pad', 0), lambda: getattr(objs[o[1]], f"h{o[2]}")))))
                     elif k == 'assign':
                         setattr(objs[o[1]], f"h{o[2]}", V.py(o[3]))
                         outs.append(('done',))
@@ -538,6 +545,7 @@ def run_cases(chk, cases, label, shard=150, fuel=150, sem='sem_fixed'):
     for c in cases:
         V = Values()
         impl = Impl(c['hier'], c['nhooks'])
+        impl.stack_pad = c.get('stack_pad', 0)
         outs, trace, flags, caches, dicts = impl.run(c['ops'], V)
         c['impl'] = {'outs': outs, 'trace': trace, 'flags': flags, 'caches': caches, 'mro': impl.mro}
         rendered.append(render_case(impl.mro, c['ops'], outs, trace, flags, caches, dicts, c.get('cmp_trace', True)))
@@ -625,3 +633,31 @@ class _Quiet:
 
     def unshown_add(self, *a):
         pass
+
+
+def model_prediction(chk, case, fuel=150):
+    """What the verified model yields for the operations of `case` (raw Coq output), for replay files."""
+    impl = Impl(case['hier'], case['nhooks'])
+    m = "(fun c => match c with " + " | ".join(f"{i} => [{';'.join(map(str, l))}]" for i, l in enumerate(impl.mro)) + " | _ => [] end)"
+    o = "[" + "; ".join(cop(x) for x in case['ops']) + "]"
+    txt = ("From PyrollLib Require Import HookMachine.\nOpen Scope nat_scope.\n"
+           f"Eval vm_compute in (let r := run {m} sem_fixed {fuel} init {o} in "
+           "(snd r, (rev (trace (fst r)), cyc (fst r), cache (fst r)))).\n")
+    chk.coq.add_text('prediction.v', txt)
+    r = chk.coq.compile('prediction.v', timeout=120)
+    return re.sub(r'\s+', ' ', r['out'])[:3000] if r['ok'] else 'model evaluation failed: ' + r['err'][-300:]
+
+
+def report_deviation(chk, case, small_ops, label):
+    """A disagreement on an observable the theorems constrain is a concrete history on which the
+    implementation deviates from the verified model: report it as the failing input."""
+    c = dict(case)
+    c['ops'] = small_ops
+    V = Values()
+    impl = Impl(c['hier'], c['nhooks'])
+    impl.stack_pad = c.get('stack_pad', 0)
+    outs, trace, flags, caches, dicts = impl.run(small_ops, V)
+    pred = model_prediction(chk, c)
+    chk.fail('deviation', f"implementation deviates from the verified hook model on a shrunk history of {len(small_ops)} operations",
+             {'hierarchy': c['hier'], 'mro': impl.mro, 'operations': small_ops, 'implementation_observed': outs,
+              'implementation_trace': trace, 'implementation_flags': flags, 'model_predicts': pred})
